@@ -68,7 +68,9 @@ BOUNDS = {
     "quick": "SYMBOLIC: the data value of every unmasked pixel (unbounded reals; box |d|<=16 only in the check_reconstruction cases); "
              "in the noise-symbolic cases additionally 3 noise-map values in [1/4, 8]. ENUMERATED: geometry sq3 (5x5 frame, central 3x3 "
              "unmasked, asymmetric non-negative dyadic 3x3 PSF, non-uniform dyadic noise, sub-size 1); linear-object mixes [mapper], "
-             "[function list, mapper], [mapper, function list], [mapper, mapper] (3x3 / 2x2 rectangular meshes, Constant and "
+             "[function list, mapper], [mapper, function list], [mapper, mapper], and - with the further slots and 8 subsets of the named "
+             "slots - [G, F, mapper], [F, G, mapper], [mapper, G, mapper, F] where G / F are function lists with 3 / 2 parameters "
+             "(3x3 / 2x2 rectangular meshes, Constant and "
              "ConstantZeroth regularization, 2-parameter MockLinearObjFuncList); both formalisms (settings.use_w_tilde True/False); all "
              "2^5 subsets of the slots {w_tilde, curvature_matrix, regularization_matrix, log_det_regularization_matrix_term, "
              "operated_mapping_matrix} taken from a separately built identical inversion; 8 subsets of the five further slots "
@@ -76,7 +78,7 @@ BOUNDS = {
              "data_linear_func_matrix_dict); sequences of k=2 inversions sharing one Preloads object; factory: settings.use_w_tilde x "
              "preloads.use_w_tilde in {None,True,False} x preloads.w_tilde present/absent, and preloads=None; positive-negative solver",
     "thorough": "as quick plus geometry 'plus' (6x6 frame, 7 unmasked pixels, sub-size 2 with fractional mapping weights, 2x3 / 3x2 meshes), "
-                "mixes [function list] and [function list, mapper, mapper], k=3, all 31 non-empty subsets of the five further slots and "
+                "mixes [function list], [function list, mapper, mapper], [mapper, F, G], [G, mapper, mapper, F] (heterogeneous mixes with all subsets), k=3, all 31 non-empty subsets of the five further slots and "
                 "all ten slots together, slot values donated by an identical inversion of the other formalism, factory cases with the "
                 "degenerate-solution test switched on",
 }
